@@ -251,7 +251,7 @@ pub fn to_operator(o: Op) -> Operator {
 // ---------------------------------------------------------------------------------------
 // running the real writer
 
-fn apply(w: &mut TextWriter<Vec<u8>>, c: &Call) -> Result<(), jomini::Error> {
+fn apply<W: std::io::Write>(w: &mut TextWriter<W>, c: &Call) -> Result<(), jomini::Error> {
     match c {
         Call::Start => w.write_start(),
         Call::ObjectStart => w.write_object_start(),
@@ -373,6 +373,43 @@ pub fn exec(w: &[&str], obs: &mut Obs) -> Option<String> {
             s.push(' ');
             s.push_str(&r.st);
             Some(s)
+        }
+        // implementation-only: the same calls into a writer that takes <cap> bytes and then fails.  No call may
+        // panic; what reached the writer is a prefix of the full output; every call up to the first one that needs
+        // more room returns what it returns with an unlimited writer, that one returns Err(io); when the output
+        // fits, nothing fails.
+        ["x-wcallsw", c, f, cap_s, rest @ ..] => {
+            let ic: u8 = c.parse().ok()?;
+            let fac: u8 = f.parse().ok()?;
+            let cap: usize = cap_s.parse().ok()?;
+            let calls: Vec<Call> = rest.iter().map(|t| parse_call(t)).collect::<Option<Vec<_>>>()?;
+            let case = w.join(" ");
+            let full = run_real(ic, fac, &calls);
+            let mut sink = crate::props::c14::FailingWriter { cap, got: vec![] };
+            let mut first_io: Option<usize> = None;
+            {
+                let mut wr = TextWriterBuilder::new().indent_char(ic).indent_factor(fac).from_writer(&mut sink);
+                for (i, call) in calls.iter().enumerate() {
+                    let r = apply(&mut wr, call);
+                    let io = matches!(r.as_ref().err().map(|e| e.kind()), Some(jomini::ErrorKind::Io(_)));
+                    if io && first_io.is_none() { first_io = Some(i); }
+                    if first_io.is_none() {
+                        // before the writer is full every call behaves as with an unlimited writer
+                        let same = match (&r, &full.rows[i]) { (Ok(()), Ok(_)) => true, (Err(_), Err(_)) => true, _ => false };
+                        if !same { obs.violation("failing-writer-call-result", &case, &format!("call {}: {:?} vs unlimited {:?}", i, r.is_ok(), full.rows[i].is_ok())); }
+                    }
+                }
+                // `inner()` hands out the sink without consuming the writer
+                if wr.inner().got.len() > cap { obs.violation("failing-writer-prefix", &case, "the sink holds more than its capacity"); }
+            }
+            if !full.out.starts_with(&sink.got) || sink.got.len() != cap.min(full.out.len()) {
+                obs.violation("failing-writer-prefix", &case, &format!("writer got {} full output {}", hex(&sink.got), hex(&full.out)));
+            }
+            if first_io.is_some() != (cap < full.out.len()) {
+                obs.violation("failing-writer-result", &case, &format!("cap {} output length {} first io error at call {:?}", cap, full.out.len(), first_io));
+            }
+            obs.count(if first_io.is_some() { "wcallsw:err" } else { "wcallsw:ok" });
+            Some(match first_io { Some(i) => format!("err:{}", i), None => "ok".to_string() })
         }
         _ => None,
     }
@@ -530,6 +567,8 @@ struct Wf<'a> {
     rows: Vec<ObsRow>,
     depth: usize,
     why: &'static str,
+    /// every element of the array being read so far is a scalar
+    scalars_only: bool,
 }
 
 #[derive(Clone, Copy, PartialEq)]
@@ -613,6 +652,9 @@ impl<'a> Wf<'a> {
         self.push_tok(String::new());
         self.depth += 1;
         let is_obj;
+        let mut mixed_pairs = 0usize;
+        let saved_scalars_only = self.scalars_only;
+        self.scalars_only = true;
         match flavour {
             Norm::Os => {
                 self.take(After::Key);
@@ -629,7 +671,33 @@ impl<'a> Wf<'a> {
                 } else {
                     let mut n = 0;
                     while !matches!(self.peek(), Some(Norm::E) | None) {
-                        if matches!(self.peek(), Some(Norm::Op(_)) | Some(Norm::Mm)) { return self.fail("operator-in-array"); }
+                        // `start_mixed_mode` after at least one element of a `write_array_start` array, then
+                        // (scalar key, operator, scalar value)* up to `write_end`: C15_mixed_parse_back
+                        if matches!(self.peek(), Some(Norm::Mm)) {
+                            if unknown || n == 0 || !self.scalars_only { return self.fail("mixed-mode-outside-the-proved-shape"); }
+                            self.take(After::Elem);
+                            let mut first = true;
+                            while let Some(Norm::Scalar(b, q, src)) = self.peek() {
+                                let o = match self.peek2() { Some(Norm::Op(o)) => *o, _ => return self.fail("mixed-pair-without-operator") };
+                                // the two shapes for which the claim is false on the real code (reported; see C15_mixed_parse_back)
+                                if o == Op::Exists { return self.fail("mixed-exists-operator(reported)"); }
+                                if first && n == 1 && !*q && b.as_slice() == b"?" { return self.fail("mixed-bare-question-key(reported)"); }
+                                if first { self.push_tok("M".to_string()); first = false; }
+                                self.push_scalar(b, *q, src)?;
+                                self.take(After::Elem);
+                                self.push_tok(format!("Op:{}", o.name()));
+                                self.take(After::Elem);
+                                match self.peek() {
+                                    Some(Norm::Scalar(b2, q2, src2)) => { self.push_scalar(b2, *q2, src2)?; self.take(After::Elem); }
+                                    _ => return self.fail("mixed-pair-value-not-a-scalar"),
+                                }
+                                mixed_pairs += 1;
+                            }
+                            if !matches!(self.peek(), Some(Norm::E)) { return self.fail("mixed-mode-outside-the-proved-shape"); }
+                            break;
+                        }
+                        if matches!(self.peek(), Some(Norm::Op(_))) { return self.fail("operator-in-array"); }
+                        if !matches!(self.peek(), Some(Norm::Scalar(..))) { self.scalars_only = false; }
                         let before = self.toks.len();
                         // the first scalar of a `write_start` container leaves the kind still unknown
                         self.value(false, if unknown && n == 0 { After::None } else { After::Elem })?;
@@ -651,7 +719,8 @@ impl<'a> Wf<'a> {
         self.take(after);
         let end = self.toks.len();
         self.push_tok(format!("E{}", start));
-        self.toks[start] = format!("{}{}", if is_obj { "O" } else { "A" }, end);
+        self.toks[start] = format!("{}{}{}", if is_obj { "O" } else { "A" }, if mixed_pairs > 0 { "m" } else { "" }, end);
+        self.scalars_only = saved_scalars_only;
         Some(())
     }
 }
@@ -660,7 +729,7 @@ struct WfResult { tape: String, src: Vec<Src>, rows: Vec<ObsRow> }
 
 fn well_formed(calls: &[Call]) -> Result<WfResult, &'static str> {
     let norm: Vec<Norm> = calls.iter().map(normalize).collect();
-    let mut p = Wf { calls: &norm, pos: 0, toks: vec![], src: vec![], rows: vec![], depth: 0, why: "" };
+    let mut p = Wf { calls: &norm, pos: 0, toks: vec![], src: vec![], rows: vec![], depth: 0, why: "", scalars_only: true };
     let ok = p.fields(false, After::None, false).is_some();
     if !ok { return Err(p.why); }
     if p.pos != norm.len() { return Err(if p.why.is_empty() { "key-expected" } else { p.why }); }
@@ -1133,6 +1202,73 @@ pub fn gen_c15(g: &mut Gen) {
         emit(g, b' ', 2, &calls);
     }
     g.count("floats");
+
+    // 6. scalar-only mixed-mode call lists (C15_mixed_parse_back): key, write_array_start, elements,
+    // start_mixed_mode, (key, operator, value)*, write_end — at the root and nested, every operator;
+    // a few with the two shapes that do not parse back (`?=`, the bare key `?` right behind the first
+    // element): those are counted as not-wf:mixed-*(reported)
+    fn mscalar(rng: &mut Rng) -> Call {
+        match rng.below(12) {
+            0..=3 => Call::Unquoted(rng.pick(&[&b"a"[..], b"b1", b"-5", b"x.y", b"1444.11.11", b"yes", b"x?", b"@v"]).to_vec()),
+            4 | 5 => Call::Quoted(payload(rng)),
+            6 => Call::I32(rng.next() as i32 >> rng.below(32)),
+            7 => Call::U64(rng.next() >> rng.below(64)),
+            8 => Call::Bool(rng.chance(1, 2)),
+            9 => Call::Date(*rng.pick(&['s', 'w']), (rng.next() as i16) >> rng.below(16), 1 + rng.below(12) as u8, 1 + rng.below(28) as u8, rng.below(25) as u8),
+            10 => Call::Binary(BinT::Unquoted(b"tok".to_vec())),
+            _ => Call::F64(f64::to_bits((rng.next() % 2_000_001) as f64 / 1000.0 - 1000.0)),
+        }
+    }
+    let n = g.budget(2_500, 40_000);
+    for _ in 0..n {
+        let mut calls = vec![];
+        let wrap = g.rng.below(4);
+        for _ in 0..wrap { calls.push(Call::Unquoted(b"n".to_vec())); calls.push(Call::ObjectStart); }
+        if g.rng.chance(1, 3) { calls.push(Call::Unquoted(b"p".to_vec())); calls.push(Call::Unquoted(b"q".to_vec())); }
+        calls.push(Call::Unquoted(b"data".to_vec()));
+        calls.push(if g.rng.chance(1, 4) { Call::Binary(BinT::Array(0)) } else { Call::ArrayStart });
+        for _ in 0..1 + g.rng.below(3) { let c = mscalar(&mut g.rng); calls.push(c); }
+        calls.push(if g.rng.chance(1, 4) { Call::Binary(BinT::Mixed) } else { Call::Mixed });
+        let pairs = g.rng.below(4);
+        for i in 0..pairs {
+            let key = if i == 0 && g.rng.chance(1, 40) { Call::Unquoted(b"?".to_vec()) } else { mscalar(&mut g.rng) };
+            calls.push(key);
+            let op = if g.rng.chance(1, 25) { Op::Exists } else { *g.rng.pick(&[Op::Eq, Op::Eq, Op::Lt, Op::Le, Op::Gt, Op::Ge, Op::Ne, Op::Exact]) };
+            calls.push(if op == Op::Eq && g.rng.chance(1, 4) { Call::Binary(BinT::Equal) } else { Call::Operator(op) });
+            let c = mscalar(&mut g.rng); calls.push(c);
+        }
+        calls.push(Call::End);
+        if g.rng.chance(1, 2) { calls.push(Call::Unquoted(b"z".to_vec())); calls.push(Call::I32(1)); }
+        for _ in 0..wrap { calls.push(Call::End); }
+        let (ic, fac) = indent_cfg(&mut g.rng);
+        emit(g, ic, fac, &calls);
+    }
+    g.count("mixed-mode");
+
+    // 7. the same kinds of call lists into a writer that fails after n bytes (implementation-only)
+    let fixed: Vec<Vec<Call>> = vec![
+        vec![Call::Unquoted(b"a".to_vec()), Call::Quoted(b"b \" c".to_vec()), Call::Unquoted(b"d".to_vec()), Call::ObjectStart, Call::Unquoted(b"k".to_vec()), Call::I64(-42), Call::End,
+             Call::Unquoted(b"c".to_vec()), Call::Rgb(1, 2, 3, Some(4)), Call::Unquoted(b"l".to_vec()), Call::ArrayStart, Call::Bool(true), Call::F64(1.5f64.to_bits()), Call::Date('s', 1444, 11, 11, 0), Call::End],
+        vec![Call::Unquoted(b"h".to_vec()), Call::Header(b"rgb".to_vec()), Call::ArrayStart, Call::U32(7), Call::End, Call::Unquoted(b"m".to_vec()), Call::ArrayStart, Call::I32(1), Call::Mixed,
+             Call::Unquoted(b"x".to_vec()), Call::Operator(Op::Ge), Call::U64(9), Call::End, Call::Binary(BinT::Token(0x2d82)), Call::Binary(BinT::F32(1.0f32.to_le_bytes()))],
+    ];
+    for calls in &fixed {
+        let len = run_real(b' ', 2, calls).out.len();
+        let tail: String = calls.iter().map(call_token).collect::<Vec<_>>().join(" ");
+        for cap in 0..=len + 1 { g.emit(format!("x-wcallsw 32 2 {} {}", cap, tail)); }
+    }
+    let n = g.budget(400, 8_000);
+    for _ in 0..n {
+        let cfg = DocCfg { mixed: false, ghosts: false, variables: false, max_depth: 1 + g.rng.below(3), ..DocCfg::text_full() };
+        let doc = docgen::gen_doc(&mut g.rng, &cfg);
+        let calls = doc_calls(&mut g.rng, &doc, &Flavour { bt_pct: 30, explicit_eq_pct: 50 });
+        if calls.is_empty() || calls.len() > 60 { continue; }
+        let len = run_real(b' ', 2, &calls).out.len();
+        let cap = g.rng.below(len + 3);
+        let tail: String = calls.iter().map(call_token).collect::<Vec<_>>().join(" ");
+        g.emit(format!("x-wcallsw 32 2 {} {}", cap, tail));
+    }
+    g.count("failing-writer");
 }
 
 pub fn gen(g: &mut Gen) { gen_c15(g) }
